@@ -2987,8 +2987,20 @@ impl<'de, 'e> de::Deserializer<'de> for YamlDeserializer<'de, 'e> {
         impl<'de> de::VariantAccess<'de> for TaggedVA<'de> {
             type Error = Error;
 
-            fn unit_variant(self) -> Result<(), Error> {
-                Ok(())
+            /// `!Variant` / `!Variant ~`: a unit variant carries no payload, as in `{Variant: ~}`.
+            fn unit_variant(mut self) -> Result<(), Error> {
+                match self.replay.peek()? {
+                    None => Ok(()),
+                    Some(Ev::Scalar {
+                        value: s, style, ..
+                    }) if scalar_is_nullish(s, style) => {
+                        let _ = self.replay.next()?;
+                        self.expect_payload_end()
+                    }
+                    Some(other) => Err(Error::UnexpectedValueForUnitEnumVariant {
+                        location: other.location(),
+                    }),
+                }
             }
 
             fn newtype_variant_seed<T>(mut self, seed: T) -> Result<T::Value, Error>
